@@ -230,7 +230,10 @@ type vfC16Env struct {
 	callSeq       int
 	held          []net.Conn
 	viol          map[string]bool
-	evalDelay     time.Duration // sleep inside configFunc (schedule diversity, real-time part only)
+	evalDelay     time.Duration           // sleep inside configFunc (schedule diversity, real-time part only)
+	resetKey      *quic.StatelessResetKey // persistent key: a restarted server answers old connections with valid stateless resets
+	useTraffic    bool                    // install a TrafficLogger (needed for the "server kicks the client" loss)
+	kickID        string                  // auth id whose traffic the TrafficLogger refuses (server then closes that connection)
 
 	rc client.Client
 }
@@ -240,12 +243,19 @@ func (e *vfC16Env) ev(kind, tag string, f map[string]any) int {
 }
 
 // vfC16NewEnv starts the world (real server on simnet).
-func vfC16NewEnv(k *vfKit, caseID string, caseDoc any, latency time.Duration, maxStreams int64, inBubble bool) (*vfC16Env, error) {
-	e := &vfC16Env{k: k, caseID: caseID, caseDoc: caseDoc, inBubble: inBubble, maxStreams: maxStreams,
+func vfC16NewEnv(k *vfKit, caseID string, caseDoc any, latency time.Duration, maxStreams int64, inBubble bool, useTraffic bool) (*vfC16Env, error) {
+	e := &vfC16Env{k: k, caseID: caseID, caseDoc: caseDoc, inBubble: inBubble, maxStreams: maxStreams, useTraffic: useTraffic,
 		tag:      fmt.Sprintf("c16s%d-%s", k.Seed, caseID),
 		evalSock: map[int]*vfC16Sock{}, evalConnected: map[int]bool{}, viol: map[string]bool{}, failsUsed: map[string]int{}}
+	var key quic.StatelessResetKey
+	copy(key[:], []byte(e.tag+"/stateless-reset-key/0123456789abcdef0123456789abcdef"))
+	e.resetKey = &key
 	w, err := vfNewWorld(vfServerOpts{Latency: latency, Config: func(sc *server.Config) {
 		sc.QUICConfig.MaxIncomingStreams = maxStreams
+		sc.StatelessResetKey = e.resetKey
+		if useTraffic {
+			sc.TrafficLogger = &vfC16Traffic{e: e}
+		}
 	}})
 	if err != nil {
 		return nil, err
@@ -266,6 +276,43 @@ func vfC16NewEnv(k *vfKit, caseID string, caseDoc any, latency time.Duration, ma
 	return e, nil
 }
 
+// vfC16Traffic refuses the traffic of the connection whose auth id is kickID: the server then closes
+// that connection with an application error (a CONNECTION_CLOSE frame reaches the client).
+type vfC16Traffic struct{ e *vfC16Env }
+
+func (t *vfC16Traffic) LogTraffic(id string, tx, rx uint64) bool {
+	t.e.mu.Lock()
+	ok := id != t.e.kickID
+	t.e.mu.Unlock()
+	if !ok {
+		t.e.ev("tl_refuse", "", map[string]any{"id": id})
+	}
+	return ok
+}
+func (t *vfC16Traffic) LogOnlineState(id string, online bool)                         {}
+func (t *vfC16Traffic) TraceStream(stream server.HyStream, stats *server.StreamStats) {}
+func (t *vfC16Traffic) UntraceStream(stream server.HyStream)                          {}
+
+// kickCur arms the server-side kick of the current connection: the next relayed byte / datagram of that
+// connection makes the server close it (CloseWithError 0x107). Returns false if there is nothing to kick.
+func (e *vfC16Env) kickCur() bool {
+	e.mu.Lock()
+	s := e.curSock
+	e.mu.Unlock()
+	if s == nil || s.CloseCalls() > 0 || !e.useTraffic {
+		return false
+	}
+	e.mu.Lock()
+	e.kickID = fmt.Sprintf("%s-e%d", e.tag, s.Eval)
+	e.mu.Unlock()
+	s.mu.Lock()
+	s.blackholed = true // marks the socket as "loss injected" for killCur
+	s.mu.Unlock()
+	e.ev("kill", s.Addr.String(), map[string]any{"kind": "srv_kick", "sock": s.ID})
+	e.k.Count("ev_kill_srv_kick", 1)
+	return true
+}
+
 // stopServer closes the running server (silently for its clients: quic-go destroys the
 // connections without sending CONNECTION_CLOSE).
 func (e *vfC16Env) stopServer() {
@@ -282,7 +329,7 @@ func (e *vfC16Env) stopServer() {
 }
 
 // startServer starts a new server on the same address (new endpoint replaces the old node).
-func (e *vfC16Env) startServer() error {
+func (e *vfC16Env) startServer(sameResetKey bool) error {
 	e.mu.Lock()
 	up := e.srvUp
 	e.mu.Unlock()
@@ -300,6 +347,13 @@ func (e *vfC16Env) startServer() error {
 	}
 	cfg.QUICConfig.DisablePathMTUDiscovery = true
 	cfg.QUICConfig.MaxIncomingStreams = e.maxStreams
+	if sameResetKey {
+		// persistent key: packets of connections the old server instance knew are answered with a VALID stateless reset
+		cfg.StatelessResetKey = e.resetKey
+	} // else: NewServer draws a random key; old connections only die by idle timeout
+	if e.useTraffic {
+		cfg.TrafficLogger = &vfC16Traffic{e: e}
+	}
 	s, err := server.NewServer(cfg)
 	if err != nil {
 		return err
@@ -311,7 +365,7 @@ func (e *vfC16Env) startServer() error {
 	e.mu.Lock()
 	e.srvUp = true
 	e.mu.Unlock()
-	e.ev("srv_start", "", nil)
+	e.ev("srv_start", "", map[string]any{"kind": map[bool]string{true: "same-reset-key", false: "fresh-reset-key"}[sameResetKey]})
 	return nil
 }
 
@@ -386,6 +440,10 @@ func (e *vfC16Env) configFunc() (*client.Config, error) {
 		TLSConfig:   client.TLSConfig{InsecureSkipVerify: true, ServerName: "verif"},
 	}
 	cfg.QUICConfig.DisablePathMTUDiscovery = true
+	if mode == "tlsbad" {
+		// certificate verification fails: the handshake ends with a local CRYPTO_ERROR (a quic TransportError)
+		cfg.TLSConfig = client.TLSConfig{InsecureSkipVerify: false, ServerName: "verif"}
+	}
 	return cfg, nil
 }
 
@@ -595,6 +653,20 @@ func (e *vfC16Env) call(kind string, g int) vfC16CallRes {
 	r.RetSeq = e.ev("call_ret", "", map[string]any{"n": n, "op": kind, "g": g, "class": r.Class, "err": es})
 	e.k.Count("ev_call", 1)
 	e.k.Count("ev_call_"+r.Class, 1)
+	if r.Class == vfC16ClsClosed {
+		// how the loss surfaced (non-vacuity of the loss kinds)
+		var sr *quic.StatelessResetError
+		var ae *quic.ApplicationError
+		var ie *quic.IdleTimeoutError
+		switch {
+		case errors.As(err, &sr):
+			e.k.Count("ev_loss_by_stateless_reset", 1)
+		case errors.As(err, &ae) && ae.Remote:
+			e.k.Count("ev_loss_by_remote_application_close", 1)
+		case errors.As(err, &ie):
+			e.k.Count("ev_loss_by_idle_timeout", 1)
+		}
+	}
 	if err != nil {
 		return r
 	}
